@@ -143,7 +143,7 @@ func (e *Encoder) writeList(data interface{}) (int, error) {
 		// fixed-length untyped list
 		e.writeBT(_listFixedUntypedTag)
 		e.writeInt(int32(vv.Len()))
-	} else if byte(vv.Len()) <= _listFixedTypedLenMax {
+	} else if vv.Len() <= int(_listFixedTypedLenMax) {
 		// fixed-length typed list
 		e.writeBT(_listFixedTypedLenTagMin + byte(vv.Len()))
 		e.writeString(listTypeName)
